@@ -1498,3 +1498,15 @@ add("onref-24-callback-helper-failed-item-counts-one", ["C19"], "helpers",
 add("onref-25-plan-table-builds-hll-for-hh", ["C08"], "helpers",
     _on_refactor("QF19", ("helpers", '        ("hh", HeavyHitters, hh_args, []),', '        ("hh", HyperLogLog, hh_args, []),')), None,
     rules=["joinfirst", "attach-table", "argsdict", "rettable"], note="QF19's plan table pairs the tag 'hh' with the HyperLogLog constructor")
+add("onref-26-per-cell-merge-helper-rounds-the-wrong-way", ["C09"], "countmin",
+    _on_refactor("QG09", ("countmin", "        return uint16(below)\n    return uint16(above)", "        return uint16(above)\n    return uint16(below)")), None,
+    rules=["logmerge-shape"], note="QG09's per-cell helper returns the upper neighbour at or below the midpoint and the lower one above it")
+add("onref-27-table-driven-carve-sizes-every-piece-like-the-first", ["C16"], "heavyhitters",
+    _on_refactor("QG16", ("heavyhitters", "            hi = lo + sizes[i]", "            hi = lo + sizes[0]")), None, rules=["layout"],
+    note="QG16's _carve_block takes every piece's size from the first entry of the size tuple")
+add("onref-28-countmin-del-table-view-unlinks", ["C16"], "countmin",
+    _on_refactor("QG16", ("countmin", '            ("existing_shm", False, "close existing_shm"),', '            ("existing_shm", True, "close existing_shm"),')), None,
+    rules=["owner"], note="QG16's table-driven CountMinLinear.__del__: the attached view is marked as owning the block")
+add("onref-29-filtered-request-table-builds-hll-for-hh", ["C08"], "helpers",
+    _on_refactor("QF08", ("helpers", '            ("hh", HeavyHitters, hh_args),', '            ("hh", HyperLogLog, hh_args),')), None,
+    rules=["joinfirst", "attach-table", "argsdict", "rettable"], note="QF08's `requested` table (a comprehension filtered by the option arguments): the 'hh' row names the HyperLogLog constructor")
